@@ -194,6 +194,31 @@ def vm_list():
         out.append('case ' + ' '.join(rdbg(vm, P(vm, f'<impl str>::{m}', S_(s_))) for m in ('to_lowercase', 'to_uppercase', 'to_ascii_uppercase')))
         out.append('lines ' + lstr(P(vm, '<impl str>::lines', S_(s_))))
         out.append('chars ' + str(len(std_iter.drain(vm, P(vm, '<impl str>::chars', S_(s_))))) + ' ' + str(P(vm, '<impl str>::len', S_(s_))))
+    for s_ in ["", "aZ", "héllo", "Ж1 x", "a\u212ab"]:
+        bs = std_iter.drain(vm, P(vm, '<impl str>::bytes', S_(s_)))
+        out.append('bytes [' + ', '.join(str(b) for b in bs) + ']')
+        def u8p(b): return '(' + ', '.join([rdbg(vm, P(vm, f'<impl u8>::{m}', b)) for m in ('is_ascii_alphabetic', 'is_ascii_digit', 'is_ascii', 'is_ascii_whitespace')] + [str(P(vm, '<impl u8>::to_ascii_uppercase', b))]) + ')'
+        out.append('u8preds [' + ', '.join(u8p(b) for b in bs) + ']')
+        tl = FnItem('core::char::methods::<impl char>::to_lowercase', {})
+        fm = T(vm, '*', 'Iterator', 'flat_map', P(vm, '<impl str>::chars', S_(s_)), HostFn(lambda vm_, c: P(vm_, '<impl char>::to_lowercase', c)))
+        out.append('flat_map "' + ''.join(chr(c) for c in std_iter.drain(vm, fm)) + '"')
+        def og(r):
+            r = conc(vm, r)
+            if r.variant == 0: return 'None'
+            x = r.fields[0]
+            while isinstance(x, Ref): x = vm.ref_get(x)
+            return f'Some({x})'
+        out.append('byte_get ' + og(P(vm, '<impl [u8]>::get', S_(s_), 0)) + ' ' + og(P(vm, '<impl [u8]>::get', S_(s_), 2)) + ' ' + og(P(vm, '<impl [u8]>::first', S_(s_))))
+        out.append('from_utf8 ' + rdbg(vm, P(vm, 'str::from_utf8', S_(s_))))
+        ci_new = _ci('ArrayString::<4>::new', method='new', selfty='ArrayString<4>')
+        f_as = [g for rx, g in MODELS.path_rx if rx.search('ArrayString::<4>::new')][0]
+        a_ = Cell(f_as(vm, [], ci_new))
+        rs = []
+        for ch in s_:
+            r_ = f_as(vm, [Ref(a_), ord(ch)], _ci('ArrayString::<4>::try_push', method='try_push', selfty='ArrayString<4>'))
+            rs.append('true' if conc(vm, r_).variant == 0 else 'false')
+        out.append('arraystring [' + ', '.join(rs) + '] ' + rdbg(vm, f_as(vm, [Ref(a_)], _ci('ArrayString::<4>::as_str', method='as_str', selfty='ArrayString<4>'))) + ' ' +
+                   str(f_as(vm, [Ref(a_)], _ci('ArrayString::<4>::len', method='len', selfty='ArrayString<4>'))) + ' ' + rdbg(vm, f_as(vm, [Ref(a_)], _ci('ArrayString::<4>::is_full', method='is_full', selfty='ArrayString<4>'))))
     r, e = std.ok(3), std.err(4)
     inc = HostFn(lambda vm_, x: x + 1); is3 = HostFn(lambda vm_, x: x == 3); is5 = HostFn(lambda vm_, x: x == 5)
     out.append('result ' + ' '.join(rdbg(vm, x) for x in [P(vm, 'Result::and', r, e), P(vm, 'Result::and', e, r), P(vm, 'Result::or', r, e), P(vm, 'Result::or', e, r),
